@@ -177,13 +177,14 @@ class Scenario:
 class LineInjector:
     """Raise InjectedFault at the n-th executed library line (n = 0: count)."""
 
-    def __init__(self, n=0):
+    def __init__(self, n=0, only=None):
         self.n = n
         self.count = 0
         self.where = None
+        self.only = set(only) if only else None    # count the lines of these library functions only (a focused sweep)
 
     def _local(self, frame, event, arg):
-        if event == "line":
+        if event == "line" and (self.only is None or frame.f_code.co_name in self.only):
             self.count += 1
             if self.n and self.count == self.n:
                 self.where = f"{os.path.basename(frame.f_code.co_filename)}:{frame.f_lineno}"
@@ -247,7 +248,7 @@ def run_fault_job(job):
     def injector(n):
         if inj is None:
             return None
-        return LineInjector(n) if inj["kind"] == "line" else HookInjector(n)
+        return LineInjector(n, only=inj.get("only")) if inj["kind"] == "line" else HookInjector(n)
 
     def guarded(fn, n):
         """Run fn under the injector; returns (kind, injector)."""
